@@ -7,7 +7,8 @@ Model of the expected-response machinery of `aioslsk` **after** the proposed fix
   `register_response_future`, `_remove_response_future`   network.py:664-696, 720-741
 * `wait_for_server_message`, `wait_for_peer_message`      network.py:698-718, 743-758
 * `on_message_received` (completion loop)                  network.py:1162-1168
-* `SoulSeekClient.execute`                                 client.py:268-283
+* `SoulSeekClient.execute`                                 client.py:275-291 (with
+  `fixes/C12-execute-cancel-during-send.patch`)
 
 asyncio is modelled at the granularity the code can observe: a `Future` is `pending`, has a
 result, is cancelled or has an exception; `set_result` / `set_exception` on a future that is not
@@ -162,7 +163,10 @@ inductive Op
   | timeout (k : Nat)                 -- the caller's timeout fires
   | cancelTask (k : Nat)              -- the caller task is cancelled
   | cancelFut (k : Nat)               -- `future.cancel()` (network.py:890)
-  | sendFails (k : Nat)               -- `command.send` raises inside `execute` (client.py:274-277)
+  | sendFails (k : Nat) (cancelled : Bool)
+      -- `command.send` raises inside `execute`: an exception of its own, or (cancelled = true) the
+      -- `CancelledError` thrown into it because the task was cancelled while suspended in `send`
+      -- (client.py:279-285, fixed: `except BaseException` — the future is cancelled in both cases)
   | cb                                -- the loop runs the next scheduled callback
 
 /-- done-callbacks in the order they were added: removal first (added at creation), then the
@@ -255,13 +259,13 @@ def step (s : State) : Op → State
     match s.ws[k]? with
     | none => s
     | some w => s.put k (cancelW k w)
-  | .sendFails k =>
+  | .sendFails k cancelled =>
     match s.ws[k]? with
     | none => s
     | some w =>
       if w.kind = .exec && !w.started then
         let r := cancelW k w
-        s.put k ({ r.1 with started := true, out := .sendError }, r.2)
+        s.put k ({ r.1 with started := true, out := if cancelled then .cancelled else .sendError }, r.2)
       else s
   | .cb =>
     match s.cbq with
